@@ -832,7 +832,8 @@ package engine
 //@   loop 3 invariant io: 0 <= i && i <= len(replacedMatches) && wInv(writer) && rdInv(replaceReader) && rdData(replaceReader) == d && reader.size == len(d) && (mode == NOTHING ? (!wIsFile(writer) && fs == fs0) : (wIsFile(writer) && wFile(writer).name == destName(mode, filename) && fs == store(fs0, destName(mode, filename), select(S, i))))
 //@   loop 3 invariant apart: (mode == NOTHING ==> fresh((writer.contents as *files.MemoryStream).contents)) && (rdIsFile(replaceReader) ==> !fresh(rdBF(replaceReader).buffer))
 //@   loop 3 invariant offsets: currentWriterOffset == len(select(S, i)) && lastReaderOffset == select(O, i) && 0 <= lastReaderOffset && lastReaderOffset <= len(d) && (i > 0 ==> lastReaderOffset == replacedMatches[i - 1].Offset.End)
-//@   loop 3 invariant recurrence: select(S, 0) == "" && select(O, 0) == 0 && (forall k :: { replacedMatches[k] } 0 <= k && k < i ==> select(S, k + 1) == select(S, k) ++ ssub(d, select(O, k), replacedMatches[k].Offset.Start) ++ replText(replacedMatches[k]) && select(O, k + 1) == replacedMatches[k].Offset.End)
+//@   loop 3 invariant recurrence: select(S, 0) == "" && (forall k :: { replacedMatches[k] } 0 <= k && k < i ==> select(S, k + 1) == select(S, k) ++ ssub(d, select(O, k), replacedMatches[k].Offset.Start) ++ replText(replacedMatches[k]))
+//@   loop 3 invariant ends: select(O, 0) == 0 && (forall k :: { replacedMatches[k] } 0 <= k && k < i ==> select(O, k + 1) == replacedMatches[k].Offset.End)
 //@   loop 3 invariant matches: (forall j :: { replacedMatches[j] } 0 <= j && j < len(replacedMatches) ==> matchOk(replacedMatches[j], d, filename)) && (forall j :: { replacedMatches[j] } { replacedMatches[j + 1] } 0 <= j && j + 1 < len(replacedMatches) ==> replacedMatches[j].Offset.End <= replacedMatches[j + 1].Offset.Start)
 //@   loop 3 invariant c05: forall j :: { replacedMatches[j] } 0 <= j && j < len(replacedMatches) ==> replText(replacedMatches[j]) == select(select(R, j), nr) && select(select(R, j), 0) == "" && (forall k :: { c.Replacer[k] } 0 <= k && k < nr ==> stepText(select(R, j), k, c.Replacer[k], replacedMatches[j], len(replacedMatches)))
 //@   loop 3 decreases len(replacedMatches) - i
